@@ -86,6 +86,11 @@ func floatOps[K float32 | float64](tkey func(K) []byte) numOps[K] {
 
 // NewNumUniverse assembles a numeric universe.
 func NewNumUniverse[K any](kind, keyType string, mk func() art.Tree[K, int], sp NumSpec[K], ops numOps[K]) *Universe {
+	return NewNumUniverseD(kind, keyType, sp, ops, func(spec *KeySpec[K], index map[string]int) Driver { return NewDriver[K](mk(), spec, index) })
+}
+
+// NewNumUniverseD is NewNumUniverse with a caller-supplied driver factory (other value types).
+func NewNumUniverseD[K any](kind, keyType string, sp NumSpec[K], ops numOps[K], mkDrv func(spec *KeySpec[K], index map[string]int) Driver) *Universe {
 	u := &Universe{Name: kind + "[" + keyType + "]/" + sp.Name, Kind: kind, KeyType: keyType, NVals: sp.NVals, HasRange: true}
 	var keys []K
 	idx := map[string]int{}
@@ -179,7 +184,7 @@ func NewNumUniverse[K any](kind, keyType string, mk func() art.Tree[K, int], sp 
 	if ops.tkey != nil {
 		u.TKey = func(k int) []byte { return ops.tkey(keys[k]) }
 	}
-	u.New = func() Driver { return NewDriver[K](mk(), spec, index) }
+	u.New = func() Driver { return mkDrv(spec, index) }
 	return u.Finish()
 }
 
